@@ -1162,11 +1162,20 @@ func g8EveryRecordedCallRegistered(r *Repo, rep *Report) {
 		default:
 			return true
 		}
-		sel, ok := ast.Unparen(over).(*ast.SelectorExpr)
-		if !ok || sel.Sel.Name != "calls" {
+		// the calls the finder recorded: its field `calls`, or a local list of call expressions
+		if over == nil {
 			return true
 		}
-		if t := info.TypeOf(over); t == nil || !strings.HasSuffix(t.String(), "ast.CallExpr") {
+		switch ox := ast.Unparen(over).(type) {
+		case *ast.SelectorExpr:
+			if ox.Sel.Name != "calls" {
+				return true
+			}
+		case *ast.Ident:
+		default:
+			return true
+		}
+		if t := info.TypeOf(over); t == nil || !strings.HasSuffix(t.String(), "[]*go/ast.CallExpr") {
 			return true
 		}
 		loops++
